@@ -272,7 +272,7 @@ func TestC05(t *testing.T) {
 		"rapid-generated programs with destination shapes nested 0-3 deep (by-value structs of different types, embedded local/imported, anonymous structs also inside imported types, imported structs with only hidden members, empty structs), fields targeted by several notations or by a notation and a :skip. "+
 			"Oracle: the set of destination leaves visible from the home package is recomputed from the harness's own type-check; from the output every generated function's assignments, `// skip:` and `// no match:` comments are collected: each leaf is covered exactly once (itself or an ancestor), no mentioned path has an invisible component, "+
 			"and every `no match` has its own stderr warning starting with <setup path>:<line> of the method or one of its notations. Non-trivial: destination with a nested/embedded/anonymous/hidden/empty struct or an explicitly targeted field; distinct by program text.",
-		300, 10000, pf,
+		1600, 40000, pf,
 		func(p *pg.Prog, r *structResult) bool {
 			for _, plan := range r.Plans {
 				nt := false
@@ -409,7 +409,7 @@ func TestC04(t *testing.T) {
 			"(b) rapid struct pairs with field names differing in case, export status and order, unexported members with getters (value/pointer receiver), embedded members, structs declared in an imported package, interface-level and method-level toggles, all method shapes; no explicit notations. "+
 			"Oracle: reference matcher on the harness's own go/types view decides per destination field {must assign from which candidate with which conversion, must report no match, either (T3,T4,T9,T24,T25)}; the observed assignment (source member, conversion kind, slice loop) or `no match` comment is read from the generated function. "+
 			"Non-trivial: a field pair whose acceptable outcome differs between at least two toggle settings (matrix) / a program with a nested, getter-matched or multi-candidate field (random part).",
-		300, 9000, pf,
+		1400, 30000, pf,
 		func(p *pg.Prog, r *structResult) bool {
 			return len(leafStats(hx.NewRecorder(hx.LoadEnv("C04"), "", ""), r)) > 0
 		},
